@@ -19,22 +19,29 @@ PID = "C19"
 M = "dclab.http_utils"
 FUNCTIONS = [(M, "HTTPFile.read"), (M, "HTTPFile.read_range_cached"),
              (M, "HTTPFile.get_cache_chunk"), (M, "HTTPFile.seek"),
-             (M, "HTTPFile.tell"), (M, "HTTPFile.download_range")]
+             (M, "HTTPFile.tell"), (M, "HTTPFile.download_range"),
+             (M, "HTTPFile.__init__"), (M, "HTTPFile._parse_header"),
+             (M, "HTTPFile.length"), (M, "HTTPFile.etag")]
 BOUNDS = {
     "quick": {"chunk_size": "1..3", "keep_chunks": "1..3", "length": "0..8",
               "ops": "1 op from an arbitrary valid cache pre-state "
                      "(inductive step) + sequences of <= 2 ops from an empty "
                      "cache", "read size": "-1..length+2",
               "two file objects of one url": "real __init__, chunk sizes "
-              "(2,3) and (3,2), length 0..5, seek + read on each"},
+              "(2,3) and (3,2), length 0..5, seek + read on each",
+              "header": "size of the resource given as a decimal text of "
+              "1..4 symbolic digits in content-length / content-range"},
     "thorough": {"chunk_size": "1..4", "keep_chunks": "1..4",
                  "length": "0..12",
                  "ops": "inductive step + sequences of <= 3 ops",
                  "read size": "-1..length+3",
                  "two file objects of one url": "chunk sizes (2,3) (3,2) "
-                 "(1,3) (2,2), length 0..7"},
+                 "(1,3) (2,2), length 0..7",
+                 "header": "size text of 1..7 symbolic digits"},
 }
-OUTSIDE = ["HTTP transport, retries, ETag", "h5py on top of the file object "
+OUTSIDE = ["HTTP transport, retries, ETag values other than a quoted "
+           "token", "servers that violate RFC 7233 (e.g. content-length of "
+           "the whole resource on a 206 reply)", "h5py on top of the file object "
            "(dataset-level equality follows from byte equality + h5py)",
            "chunk_size > 4, keep_chunks > 4 (the code has no constants that "
            "depend on them)", "negative positions", "keep_chunks == 0",
@@ -43,7 +50,12 @@ STUBS = ["requests session = RFC 7233 server fed by the Range header text "
          "that the real download_range formats (symbolic ints travel through "
          "the text as placeholders): valid range -> blob[first:min(last+1,L)]"
          "; last < first (syntactically invalid) -> whole blob (Range header "
-         "ignored, 200); first >= L -> 416 error body (foreign bytes)", "np.int64 = identity on mathematical ints"]
+         "ignored, 200); first >= L -> 416 error body (foreign bytes)", "np.int64 = identity on mathematical ints",
+         "header case: the same server also sends content-length (size of "
+         "the body), content-range `bytes a-b/<size>` on 206 and a quoted "
+         "etag; `int()` on a text with symbolic characters = decimal value "
+         "if all characters are digits (blanks around ignored), ValueError "
+         "otherwise"]
 ASSUMPTIONS = ["bytes are modelled by provenance (offset segments), i.e. the "
                "check is about which offsets are returned",
                "a read at position p with size n must return "
